@@ -40,4 +40,23 @@ example : (overlapMemoRun oSchema Fixes.all (oDocFrag "a")).1 = 0 ↔
     (List.reverse_perm _).symm (by unfold Spec.uniqueFragmentNames; decide) (parentsAgree_frag "a") (overlapSide_frag "a").noEmptyName
     (by rw [← wfIdsB_iff]; decide)
 
+/-! ### what the other invariance claims will need: reordering ARGUMENTS
+
+`_same_arguments` sorts both argument lists by name with a STABLE sort and compares them pairwise. With two arguments of
+one name (a violation of UniqueArgumentNames, 5.4.2) the relative order of the two survives the sort, so reordering the
+arguments of one field changes what this rule reports: `{ a(x:1, x:2) a(x:2, x:1) }` is reported ("different arguments"),
+`{ a(x:1, x:2) a(x:1, x:2) }` is not - reproduced on the real validator (both documents are rejected by
+UniqueArgumentNames, so the VERDICT of the chain does not change: no violation of the property; an invariance theorem
+for this rule under `perm_arguments` must assume unique argument names). -/
+
+def argI (n v : String) : Arg := { name := n, value := .int v }
+
+/-- the rule alone is not invariant under reordering the arguments of a field when argument names repeat -/
+theorem perm_arguments_overlap_needs_unique_argument_names :
+    0 < (overlapMemoRun wSchema Fixes.all
+      ⟨[opV [] 1 [fld none "a" [argI "x" "1", argI "x" "2"], fld none "a" [argI "x" "2", argI "x" "1"]]]⟩).1 ∧
+    (overlapMemoRun wSchema Fixes.all
+      ⟨[opV [] 1 [fld none "a" [argI "x" "1", argI "x" "2"], fld none "a" [argI "x" "1", argI "x" "2"]]]⟩).1 = 0 := by
+  decide +kernel
+
 end PyGql.Props.C06
